@@ -774,8 +774,40 @@ def _canon(a):
     if isinstance(a, tuple):
         if len(a) == 3 and a[0] == 'SetOf' and isinstance(a[2], tuple):
             return (a[0], a[1], tuple(sorted((_canon(x) for x in a[2]), key=repr)))
+        if len(a) == 3 and a[0] == 'Real' and isinstance(a[2], tuple) and len(a[2]) == 3:
+            return (a[0], a[1], _canon_real(a[2]))
         return tuple(_canon(x) for x in a)
     return a
+
+
+def _canon_real(t):
+    """(mantissa, base, exponent) denotes mantissa * base**exponent: the same number has many triples."""
+    m, b, e = t
+    try:
+        m, b, e = int(m) if float(m) == int(m) else m, int(b), int(e)
+    except (TypeError, ValueError, OverflowError):
+        return t
+    if not isinstance(m, int):
+        return t
+    if m == 0:
+        return (0, 10, 0)
+    if b == 10:
+        # character-form REALs live as Python floats inside the library: 15 significant
+        # decimal digits are what a double guarantees to carry through repr()/float()
+        digits = len(str(abs(m)))
+        if digits > 15:
+            drop = digits - 15
+            m = int(round(m / float(10 ** drop)))
+            e += drop
+    while m % b == 0:
+        m //= b
+        e += 1
+    if b == 10 and e + len(str(abs(m))) < -290:
+        # character-form REALs go through Python floats inside the library; below the
+        # normal double range (subnormals) a float does not survive repr()/float() exactly,
+        # so only the sign of such values is compared (stated in the C10 assumptions)
+        return ('subnormal', 10, -1 if m < 0 else 1)
+    return (m, b, e)
 
 
 def _safe_isvalue(o):
@@ -891,3 +923,88 @@ def snapshot(obj, depth=0):
                 except Exception as e:
                     out.append(op + '!' + type(e).__name__)
     return tuple(out)
+
+
+# ---------------------------------------------------------------------------
+# independent well-typedness evaluation (C10): from the descriptor's plain data only
+
+def conforms(obj, desc, schema, path='$'):
+    """Returns None if obj is a complete value of the type described by desc, else a
+    short description of the first problem.  Uses the descriptor (plain data) and the
+    public read API of the object; never pyasn1's constraint objects."""
+    univ = p.univ
+    k = desc['k']
+    if not isinstance(obj, p.base.Asn1Item):
+        return '%s: not an ASN.1 object (%s)' % (path, type(obj).__name__)
+    want_cls = P()['classes'][k]
+    if not isinstance(obj, want_cls):
+        return '%s: %s where %s is declared' % (path, type(obj).__name__, want_cls.__name__)
+    if k in ('INTEGER', 'ENUMERATED', 'BOOLEAN') and k == 'INTEGER' and isinstance(obj, (univ.Boolean, univ.Enumerated)):
+        return '%s: %s where INTEGER is declared' % (path, type(obj).__name__)
+    if tagset_key(obj.tagSet) != tagset_key(schema.tagSet):
+        return '%s: tags %r where %r are declared' % (path, tagset_key(obj.tagSet), tagset_key(schema.tagSet))
+    con = desc.get('con') or {}
+    if k in PRIMS or k == 'ANY':
+        if not obj.isValue:
+            return '%s: not a value' % path
+        if 'range' in con:
+            lo, hi = con['range']
+            if not lo <= int(obj) <= hi:
+                return '%s: %d outside %d..%d' % (path, int(obj), lo, hi)
+        if 'size' in con:
+            lo, hi = con['size']
+            n = len(obj)
+            if not lo <= n <= hi:
+                return '%s: size %d outside %d..%d' % (path, n, lo, hi)
+        if 'alpha' in con:
+            text = str(obj)
+            bad = [c for c in text if c not in con['alpha']]
+            if bad:
+                return '%s: character %r outside the permitted alphabet' % (path, bad[0])
+        if k == 'BOOLEAN' and int(obj) not in (0, 1):
+            return '%s: BOOLEAN holding %r' % (path, int(obj))
+        return None
+    if k in ('SEQ', 'SET'):
+        nts = schema.componentType
+        for i, f in enumerate(desc['fields']):
+            c = obj.getComponentByPosition(i, default=None, instantiate=False)
+            if c is None:
+                if f['opt'] == 'R':
+                    return '%s.%s: mandatory component missing' % (path, f['n'])
+                continue
+            if f.get('open'):
+                continue
+            r = conforms(c, f['d'], nts[i].asn1Object, '%s.%s' % (path, f['n']))
+            if r:
+                return r
+        return None
+    if k in ('SEQOF', 'SETOF'):
+        try:
+            n = len(obj)
+        except p.error.PyAsn1Error:
+            return '%s: not a value' % path
+        if not obj.isValue:
+            return '%s: not a value (placeholder inside)' % path
+        if 'size' in con:
+            lo, hi = con['size']
+            if not lo <= n <= hi:
+                return '%s: %d elements outside SIZE(%d..%d)' % (path, n, lo, hi)
+        for i in range(n):
+            c = obj.getComponentByPosition(i, default=None, instantiate=False)
+            if c is None:
+                return '%s[%d]: hole' % (path, i)
+            r = conforms(c, desc['of'], schema.componentType, '%s[%d]' % (path, i))
+            if r:
+                return r
+        return None
+    if k == 'CHOICE':
+        held = []
+        for j, (name, a) in enumerate(desc['alts']):
+            c = obj.getComponentByPosition(j, default=None, instantiate=False)
+            if c is not None and c is not p.base.noValue and c.isValue:
+                held.append((j, name, a, c))
+        if len(held) != 1:
+            return '%s: %d alternatives held' % (path, len(held))
+        j, name, a, c = held[0]
+        return conforms(c, a, schema.componentType[j].asn1Object, '%s.%s' % (path, name))
+    return None
